@@ -31,6 +31,9 @@ type FCRound struct {
 	// after the gradient check: Update = both parameters are updated through the pointers by
 	// SGD (instead of only being reset); FreezeW / FreezeB = the parameter is then made a
 	// fresh UNtracked leaf (ResetGradContext(false)) and must receive no gradient next round
+	// Both: the second Forward (with one input row changed) is weighted and back-propagated as
+	// well, after the first: two graphs built before any back-propagation share W and B
+	Both    bool `json:"both,omitempty"`
 	Update  bool `json:"update,omitempty"`
 	FreezeW bool `json:"freeze_w,omitempty"`
 	FreezeB bool `json:"freeze_b,omitempty"`
@@ -47,6 +50,12 @@ func init() { register("C16/fc", checkC16) }
 
 func genC16(t *rapid.T) C16Case {
 	c := C16Case{F: rapid.IntRange(1, 5).Draw(t, "f"), O: rapid.IntRange(1, 5).Draw(t, "o"), Init: rapid.IntRange(0, 3).Draw(t, "init")}
+	if rapid.IntRange(0, 7).Draw(t, "wide") == 0 {
+		c.F = rapid.IntRange(6, 70).Draw(t, "widef")
+	}
+	if rapid.IntRange(0, 15).Draw(t, "manyouts") == 0 {
+		c.O = rapid.IntRange(6, 40).Draw(t, "wideo")
+	}
 	nr := rapid.IntRange(1, 4).Draw(t, "rounds")
 	for r := 0; r < nr; r++ {
 		var rd FCRound
@@ -65,6 +74,7 @@ func genC16(t *rapid.T) C16Case {
 		rd.XTracked = rapid.Bool().Draw(t, "xtracked")
 		rd.G = prog.DrawValsMode(t, rd.Batch*c.O, 4+r, "std")
 		rd.Row = rapid.IntRange(0, rd.Batch-1).Draw(t, "row")
+		rd.Both = rapid.IntRange(0, 2).Draw(t, "both") == 0
 		rd.Update = rapid.IntRange(0, 2).Draw(t, "update") == 0
 		rd.FreezeW = rapid.IntRange(0, 5).Draw(t, "freezew") == 0
 		rd.FreezeB = rapid.IntRange(0, 5).Draw(t, "freezeb") == 0
@@ -74,7 +84,7 @@ func genC16(t *rapid.T) C16Case {
 }
 
 func checkC16(c C16Case) *Failure {
-	if c.F < 1 || c.O < 1 || c.F > 16 || c.O > 16 {
+	if c.F < 1 || c.O < 1 || c.F > 128 || c.O > 128 {
 		return nil
 	}
 	conf := &layers.FCConfig{Inputs: c.F, Outputs: c.O}
@@ -216,6 +226,22 @@ func checkC16(c C16Case) *Failure {
 		if err := tensor.BackPropagate(z); err != nil {
 			return failf("round %d: BackPropagate returned error: %v", ri, err)
 		}
+		both := rd.Both && rd.Batch == 1 // (batch 1: the expected sum does not involve finding D2)
+		var want2 ref.T
+		if both {
+			// the second graph over the same parameters, built before the first back-propagation
+			z2, err := y2.Mul(gt)
+			if err != nil {
+				return failf("round %d: weighting failed: %v", ri, err)
+			}
+			if err := tensor.BackPropagate(z2); err != nil {
+				return failf("round %d: second BackPropagate returned error: %v", ri, err)
+			}
+			ctx := ref.NewCtx(ns)
+			rw := ctx.SeedBlock(ref.FromVals([]int{c.O}, wV), 0)
+			rb := ctx.SeedBlock(ref.FromVals([]int{c.O}, bV), c.O)
+			want2 = refFC(ctx, ref.FromVals([]int{rd.Batch, c.F}, x2v), rw, rb)
+		}
 		var avgY *ref.T
 		type target struct {
 			name    string
@@ -243,6 +269,14 @@ func checkC16(c C16Case) *Failure {
 				return failf("round %d: gradient of %s has shape %v, expected %v", ri, tg.name, gs, tg.shape)
 			}
 			w, sc := prog.Adjoint(want, rd.G, tg.slot, tg.n)
+			if both && tg.name != "x" {
+				// gradients of the two graphs add up on the shared parameters
+				w2, sc2 := prog.Adjoint(want2, rd.G, tg.slot, tg.n)
+				for k := range w {
+					w[k] += w2[k]
+					sc[k] += sc2[k]
+				}
+			}
 			bad := -1
 			for k := range gv {
 				if !closeTo(gv[k], w[k], sc[k]) {
@@ -345,12 +379,22 @@ func genC17(t *rapid.T) C17Case {
 	cfg.MaxElems = 48
 	g := prog.NewGen(t, cfg)
 	s := g.DrawShape(0)
+	big := rapid.IntRange(0, 19).Draw(t, "bigweight") == 0
+	if big {
+		// a large weight of awkward size; its gradient comes from one simple operation
+		s = rapid.SampledFrom([][]int{{50, 41}, {1501}, {17, 129}, {5, 700}, {65, 33}, {2050}, {33, 3, 21}}).Draw(t, "bigshape")
+		g.Cfg.MaxElems = 4200
+		g.Cfg.Ops = []string{"mul", "pow", "sin", "scale"}
+	}
 	w := g.AddLeaf(s, rapid.IntRange(0, 5).Draw(t, "wtracked") > 0)
 	pool := []int{w}
 	if rapid.Bool().Draw(t, "otherleaf") {
 		pool = append(pool, g.AddLeaf(s, rapid.Bool().Draw(t, "otracked")))
 	}
 	nn := rapid.IntRange(1, 6).Draw(t, "nnodes")
+	if big {
+		nn = 1
+	}
 	for len(g.P.Nodes) < nn {
 		before := len(g.Vals)
 		if len(g.P.Nodes) == 0 {
@@ -364,7 +408,7 @@ func genC17(t *rapid.T) C17Case {
 	}
 	c := C17Case{P: g.P}
 	c.NilConf = rapid.IntRange(0, 4).Draw(t, "nilconf") == 0
-	c.LR = rapid.SampledFrom([]float64{0.01, 0.5, 0, -0.1, 1e3, 1e-6, 1, -2}).Draw(t, "lr")
+	c.LR = rapid.SampledFrom([]float64{0.01, 0.5, 0, -0.1, 1e3, 1e-6, 1, -2, 2e-7, 0.25, 0.2500004, 0.0100003, -0.1000002}).Draw(t, "lr")
 	if rapid.IntRange(0, 9).Draw(t, "badptr") == 0 {
 		c.Mode = rapid.IntRange(1, 2).Draw(t, "mode")
 	}
